@@ -15,10 +15,10 @@
           structure is the restriction of the tree, final root null); ASan/UBSan aborts, crashes
           and non-termination count as failures.  Failing cases are shrunk (ddmin on the ops, then k).
 """
+import hashlib
 import os
 import random
 import re
-from concurrent.futures import ThreadPoolExecutor
 from pathlib import Path
 
 try:
@@ -168,110 +168,127 @@ def history(rng, length, krange, pdel):
     return ops
 
 
-def gen_cases(ctx):
-    from itertools import permutations
-    quick = ctx.quick
-    cases, dist = [], {}
-
-    def add(kind, k, ops, tag):
-        cases.append("%s %d %s" % (kind, k, " ".join(ops)))
-        dist[tag] = dist.get(tag, 0) + 1
-
-    # 0. corpus first
+def corpus_cases():
+    out = []
     if CORPUS.is_dir():
         for f in sorted(CORPUS.glob("*.txt")):
             for ln in f.read_text().splitlines():
                 ln = ln.strip()
                 if ln and not ln.startswith("#"):
-                    cases.append(ln)
-                    dist["corpus"] = dist.get("corpus", 0) + 1
+                    out.append(ln)
+    return out
 
-    # 1. every insertion order of <= N distinct keys, AVL and RB, k cycling over 0..n+1
-    rng = random.Random(ctx.subseed("orders"))
-    nmax = 5 if quick else 7
-    c = 0
-    for n in range(0, nmax + 1):
+
+def plan(ctx):
+    """The work of one run as a list of independent tasks (tag, kind-of-generator, params, seed).
+    Every seed is derived from ctx.subseed()."""
+    q = ctx.quick
+    tasks = [("corpus", "corpus", {}, 0)]
+    for n in range(0, (6 if q else 7) + 1):
+        tasks.append(("all-insert-orders", "orders", {"n": n}, ctx.subseed("orders%d" % n)))
+    for i in range(2 if q else 16):
+        tasks.append(("insert-then-remove", "removals", {"count": 600 if q else 2000, "nmax": 10 if q else 12},
+                      ctx.subseed("removals%d" % i)))
+    for n in range(1, (7 if q else 10) + 1):
+        tasks.append(("all-shapes", "shapes", {"n": n, "both": q or n <= 8}, ctx.subseed("shapes%d" % n)))
+    tasks.append(("directed-shapes", "directed", {"quick": q}, ctx.subseed("directed")))
+    for i in range(2 if q else 24):
+        tasks.append(("random-shapes", "randshapes", {"count": 800 if q else 2500, "maxn": 120 if q else 400},
+                      ctx.subseed("randshapes%d" % i)))
+    for i in range(4 if q else 48):
+        tasks.append(("random-histories", "histories", {"count": 900 if q else 2500, "maxlen": 400 if q else 1500},
+                      ctx.subseed("histories%d" % i)))
+    if not q:
+        for i in range(6):
+            tasks.append(("random-histories", "bighist", {"count": 2}, ctx.subseed("bighist%d" % i)))
+    return tasks
+
+
+def gen_task(task):
+    from itertools import permutations
+    tag, gen, pr, seed = task
+    rng = random.Random(seed)
+    cases = []
+
+    def add(kind, k, ops):
+        cases.append("%s %d %s" % (kind, k, " ".join(ops)))
+
+    if gen == "corpus":
+        return corpus_cases()
+    if gen == "orders":
+        # every insertion order of n distinct keys, AVL and RB, k cycling over 0..n+1
+        n, c = pr["n"], 0
         for perm in permutations(range(n)):
             ids = rng.sample(range(1, 3 * n + 8), n)
             ops = ["i%d:%d" % (ids[j], 10 * perm[j] + 5) for j in range(n)]
             for kind in "AR":
-                add(kind, c % (n + 2), ops, "all-insert-orders")
+                add(kind, c % (n + 2), ops)
                 c += 1
-    # 1b. all insertion orders of N keys followed by removals (shapes only removal reaches)
-    rng = random.Random(ctx.subseed("removals"))
-    nrm = 6 if quick else 8
-    cnt = 150 if quick else 6000
-    for _ in range(cnt):
-        n = rng.randint(3, nrm + 4)
-        keys = list(range(n))
-        rng.shuffle(keys)
-        ids = rng.sample(range(1, 3 * n + 8), n)
-        ops = ["i%d:%d" % (ids[j], keys[j]) for j in range(n)]
-        dels = rng.sample(ids, rng.randint(1, n - 1))
-        ops += ["d%d" % d for d in dels]
-        add(rng.choice("AR"), pick_k(rng, n - len(dels), rng.randrange(8)), ops, "insert-then-remove")
-
-    # 2. every binary tree shape with <= M nodes, hand-linked (both node types), ids permuted
-    rng = random.Random(ctx.subseed("shapes"))
-    mmax = 6 if quick else 9
-    c = 0
-    for n in range(1, mmax + 1):
+    elif gen == "removals":
+        # insertions followed by removals (shapes only removal reaches)
+        for _ in range(pr["count"]):
+            n = rng.randint(3, pr["nmax"])
+            keys = list(range(n))
+            rng.shuffle(keys)
+            ids = rng.sample(range(1, 3 * n + 8), n)
+            ops = ["i%d:%d" % (ids[j], keys[j]) for j in range(n)]
+            dels = rng.sample(ids, rng.randint(1, n - 1))
+            ops += ["d%d" % d for d in dels]
+            add(rng.choice("AR"), pick_k(rng, n - len(dels), rng.randrange(8)), ops)
+    elif gen == "shapes":
+        # every binary tree shape with n nodes, hand-linked, ids permuted
+        n, c = pr["n"], 0
         for s in shapes(n):
-            for kind in ("ar" if (quick or n <= 7) else ("a" if c % 2 else "r")):
-                add(kind, c % (n + 2), raw_ops(s, id_stream(rng, n)), "all-shapes")
+            for kind in ("ar" if pr["both"] else ("a" if c % 2 else "r")):
+                add(kind, c % (n + 2), raw_ops(s, id_stream(rng, n)))
                 c += 1
-
-    # 3. directed shapes: chains (long climbs), zigzags, combs, Fibonacci (minimal AVL), complete
-    rng = random.Random(ctx.subseed("directed"))
-    big = [1, 2, 3, 17, 64] if quick else [1, 2, 3, 17, 64, 257, 1500]
-    directed = []
-    for n in big:
-        directed += [chain(n, lambda i: "l"), chain(n, lambda i: "r"),
-                     chain(n, lambda i: "lr"[i % 2]), chain(n, lambda i: "rl"[i % 2]),
-                     chain(n, lambda i: "llr"[i % 3]), chain(n, lambda i: "rrl"[i % 3])]
-    for h in (range(1, 8) if quick else range(1, 15)):
-        directed += [fib_tree(h, "l"), fib_tree(h, "r")]
-    for h in (range(1, 6) if quick else range(1, 11)):
-        directed.append(complete(h))
-    for i, s in enumerate(directed):
-        n = shape_size(s)
-        for j, kind in enumerate("ar"):
-            add(kind, pick_k(rng, n, i + j), raw_ops(s, id_stream(rng, n)), "directed-shapes")
-    # combs: spine with leaves on the other side (missing-sibling cases on the climb path)
-    for n in ([4, 9, 30] if quick else [4, 9, 30, 200, 900]):
-        for side in "lr":
-            s = None
-            for i in range(n):
-                leaf = (None, None) if i % 2 == 0 else None
-                s = (s, leaf) if side == "l" else (leaf, s)
-            m = shape_size(s)
-            add("ar"[n % 2], pick_k(rng, m, n), raw_ops(s, id_stream(rng, m)), "directed-shapes")
-
-    # 4. random unbalanced shapes
-    rng = random.Random(ctx.subseed("randshapes"))
-    for i in range(300 if quick else 20000):
-        n = rng.choice([2, 3, 5, 8, 13, 21, 40]) if rng.random() < 0.9 else rng.randint(41, 120 if quick else 400)
-        s = random_shape(rng, n)
-        add("ar"[i % 2], pick_k(rng, n, i), raw_ops(s, id_stream(rng, n)), "random-shapes")
-
-    # 5. random insert/remove/duplicate histories on the real containers
-    rng = random.Random(ctx.subseed("histories"))
-    for i in range(700 if quick else 60000):
-        r = rng.random()
-        if r < 0.55:
-            length = rng.randint(1, 24)
-        elif r < 0.9:
-            length = rng.randint(25, 120)
-        else:
-            length = rng.randint(121, 400 if quick else 1500)
-        krange = rng.choice([8, 64, 1 << 20]) if length < 200 else rng.choice([64, 1 << 20])
-        ops = history(rng, length, krange, rng.choice([0.0, 0.2, 0.35, 0.5]))
-        add("AR"[i % 2], pick_k(rng, min(length, krange), i), ops, "random-histories")
-    if not quick:
-        for i in range(12):
+    elif gen == "directed":
+        # chains (long climbs), zigzags, Fibonacci (minimal AVL), complete trees, combs
+        q = pr["quick"]
+        big = [1, 2, 3, 17, 64] if q else [1, 2, 3, 17, 64, 257, 1500]
+        directed = []
+        for n in big:
+            directed += [chain(n, lambda i: "l"), chain(n, lambda i: "r"),
+                         chain(n, lambda i: "lr"[i % 2]), chain(n, lambda i: "rl"[i % 2]),
+                         chain(n, lambda i: "llr"[i % 3]), chain(n, lambda i: "rrl"[i % 3])]
+        for h in (range(1, 8) if q else range(1, 15)):
+            directed += [fib_tree(h, "l"), fib_tree(h, "r")]
+        for h in (range(1, 6) if q else range(1, 11)):
+            directed.append(complete(h))
+        for i, s in enumerate(directed):
+            n = shape_size(s)
+            for j, kind in enumerate("ar"):
+                add(kind, pick_k(rng, n, i + j), raw_ops(s, id_stream(rng, n)))
+        for n in ([4, 9, 30] if q else [4, 9, 30, 200, 900]):
+            for side in "lr":
+                s = None
+                for i in range(n):
+                    leaf = (None, None) if i % 2 == 0 else None
+                    s = (s, leaf) if side == "l" else (leaf, s)
+                m = shape_size(s)
+                add("ar"[n % 2], pick_k(rng, m, n), raw_ops(s, id_stream(rng, m)))
+    elif gen == "randshapes":
+        for i in range(pr["count"]):
+            n = rng.choice([2, 3, 5, 8, 13, 21, 40]) if rng.random() < 0.9 else rng.randint(41, pr["maxn"])
+            s = random_shape(rng, n)
+            add("ar"[i % 2], pick_k(rng, n, i), raw_ops(s, id_stream(rng, n)))
+    elif gen == "histories":
+        for i in range(pr["count"]):
+            r = rng.random()
+            if r < 0.55:
+                length = rng.randint(1, 24)
+            elif r < 0.9:
+                length = rng.randint(25, 120)
+            else:
+                length = rng.randint(121, pr["maxlen"])
+            krange = rng.choice([8, 64, 1 << 20]) if length < 200 else rng.choice([64, 1 << 20])
+            ops = history(rng, length, krange, rng.choice([0.0, 0.2, 0.35, 0.5]))
+            add("AR"[i % 2], pick_k(rng, min(length, krange), i), ops)
+    elif gen == "bighist":
+        for i in range(pr["count"]):
             ops = history(rng, 4096, 1 << 20, [0.1, 0.3, 0.45][i % 3])
-            add("AR"[i % 2], rng.randint(0, 2500), ops, "random-histories")
-    return cases, dist
+            add("AR"[i % 2], rng.randint(0, 2500), ops)
+    return cases
 
 
 # ------------------------------------------------------------------------------------ running
@@ -651,18 +668,23 @@ def shrink(cbin, case):
     return mk(k, ops)
 
 
-def report_case(ctx, cbin, case, why, reported):
+def failure_class(what, case):
+    kind = case.split()[0]
+    fam = {"A": "avl", "a": "avl", "R": "rbt", "r": "rbt"}.get(kind, kind)
+    tag = re.sub(r"[^A-Za-z_]+", "-", what.split(":")[0]).strip("-")[:24]
+    return "%s/%s" % (fam, tag)
+
+
+def report_case(ctx, cbin, case, why, cls):
     small = shrink(cbin, case)
     what = c_fails(cbin, small) or why
-    key = "iter/" + re.sub(r"[^A-Za-z_]+", "-", what.split(":")[0])[:40] + "/" + small[:60].replace(" ", "_")
-    if key in reported:
-        return
-    reported.add(key)
     cb, crashes = run_c(cbin, [small], timeout=60)
-    ctx.report(key=key, what="%s  [case: %s]" % (what, small),
+    ctx.report(key="C03/" + cls, what="%s  [failing input: %s]" % (what, small),
                replay={"case": small, "original_case": case if len(case) < 4000 else case[:4000] + "...",
                        "failure": what, "c_output": cb[0], "crash": list(crashes.values()),
-                       "how": "echo '<case>' | build/C03/drv   (harness/C03/drv.c built by checks/C03.py)"},
+                       "format": "<kind A=avl R=rbt a/r=hand-linked> <k: tear interrupted after k nodes> ops: "
+                                 "i<id>:<key> insert, d<id> remove, t<id> root, l<id>:<parent> left child, g<id>:<parent> right child",
+                       "how": "python3 tools/vcheck.py C03 --replay <this file>   (or: echo '<case>' | build/C03/drv)"},
                found_input=True)
 
 
@@ -674,89 +696,149 @@ def build(ctx):
     return cbin, mbin
 
 
-def run(ctx):
-    ctx.prove()
-    cbin, mbin = build(ctx)
-    cases, dist = gen_cases(ctx)
-    ctx.log("generated %d cases: %s" % (len(cases), dist))
-    chunk = 400 if ctx.quick else 1500
-    chunks = [(i, cases[i:i + chunk]) for i in range(0, len(cases), chunk)]
-    with ThreadPoolExecutor(max_workers=max(2, min(vlib.NPROC, 12))) as ex:
-        results = list(ex.map(lambda ic: run_pair(cbin, mbin, ic[1]), chunks))
-    ctx.log("harness and model ran")
-
-    stats, sizes, shapes_seen = {}, {}, set()
-    n_cmp = n_lines = n_steps = n_nontriv = 0
-    suspects = []          # (case, why)
-    n_diff = 0
-    not_wf = 0
-    for (off, cs), (cb, crashes, mb, (mrc, merr)) in zip(chunks, results):
+def work(args):
+    """One task, run in a worker process: generate, run C and model, compare, evaluate the oracle."""
+    task, cbin, mbin = args
+    tag = task[0]
+    cases = gen_task(task)
+    res = {"tag": tag, "n_cases": len(cases), "n_cmp": 0, "n_lines": 0, "n_steps": 0, "n_diff": 0, "not_wf": 0,
+           "stats": {}, "sizes": {}, "shapes": set(), "suspects": [], "broken": [], "samples": []}
+    for off in range(0, len(cases), 1500):
+        cs = cases[off:off + 1500]
+        cb, crashes, mb, (mrc, merr) = run_pair(cbin, mbin, cs)
         if mrc != 0:
-            ctx.tie_broken("model driver failed (rc %d): %s" % (mrc, merr))
+            res["broken"].append("model driver failed (rc %d): %s" % (mrc, merr))
         for j, why in crashes.items():
-            suspects.append((cs[j], "sanitizer/crash: " + why))
-            ctx.tie_broken("C harness aborted on case %d: %s" % (off + j, why[:200]))
+            res["suspects"].append((cs[j], "sanitizer/crash: " + why))
+            res["broken"].append("C harness aborted on case `%s`: %s" % (cs[j][:100], why[:200]))
         for j, case in enumerate(cs):
             b = cb[j]
             if b is None:
                 if j not in crashes:
-                    ctx.tie_broken("no C output for case %d" % (off + j))
+                    res["broken"].append("no C output for case `%s`" % case[:100])
                 continue
             m = mb.get(j)
-            n_cmp += 1
+            res["n_cmp"] += 1
             sc = strip_c(b)
             if m is None or sc != strip_m(m):
-                n_diff += 1
-                if n_diff <= 5:
+                res["n_diff"] += 1
+                if res["n_diff"] <= 2:
                     sm = strip_m(m) if m else []
                     i = vlib.first_diff(sc, sm)
-                    ctx.tie_broken("correspondence: case %d (%s) differs at line %s: C `%s` / model `%s`"
-                                   % (off + j, case[:80], i, sc[i][:120] if i is not None and i < len(sc) else None,
-                                      sm[i][:120] if i is not None and i < len(sm) else None))
-                suspects.append((case, "differs from model"))
+                    res["broken"].append("correspondence: case `%s` differs at line %s: C `%s` / model `%s`"
+                                         % (case[:80], i, sc[i][:120] if i is not None and i < len(sc) else None,
+                                            sm[i][:120] if i is not None and i < len(sm) else None))
+                res["suspects"].append((case, "differs from model"))
             if m is not None and "#wf 1" not in m[:4]:
-                not_wf += 1
-            n_lines += len(sc)
-            f = oracle(b, stats)
+                res["not_wf"] += 1
+            res["n_lines"] += len(sc)
+            f = oracle(b, res["stats"])
             if f:
-                suspects.append((case, f[0]))
+                res["suspects"].append((case, f[0]))
                 if f[0].startswith("PRECONDITION"):
-                    ctx.tie_broken("case %d: %s" % (off + j, f[0][:300]))
+                    res["broken"].append("case `%s`: %s" % (case[:100], f[0][:300]))
             root, n, nodes = parse_shape(b[1])
-            n_steps += 6 * n + 9 * n
+            res["n_steps"] += 15 * n
             bucket = "0" if n == 0 else "1" if n == 1 else "2-7" if n <= 7 else "8-63" if n <= 63 else "64+"
-            kd = b[0].split()[2]
-            sizes[kd + ":" + bucket] = sizes.get(kd + ":" + bucket, 0) + 1
+            kd = b[0].split()[2] + ":" + bucket
+            res["sizes"][kd] = res["sizes"].get(kd, 0) + 1
             if n >= 2:
-                sk = struct_key(nodes, root)
-                if sk not in shapes_seen:
-                    shapes_seen.add(sk)
-                    n_nontriv += 1
-            if n >= 3:
-                ctx.sample({"case": case[:160], "shape": b[1][:200], "in": b[3][:80], "tear": [x for x in b if x.startswith("tear")][0][:80]})
-    if n_diff > 5:
-        ctx.tie_broken("correspondence: %d cases differ in total" % n_diff)
+                res["shapes"].add(hashlib.md5(struct_key(nodes, root).encode()).digest()[:8])
+            if n >= 4 and len(res["samples"]) < 1 and (off + j) % 7 == 3:
+                res["samples"].append({"group": tag, "case": case[:160], "shape": b[1][:200],
+                                       "post": [x for x in b if x.startswith("post ")][0][:80],
+                                       "tear": [x for x in b if x.startswith("tear")][0][:80]})
+    res["suspects"] = res["suspects"][:40]
+    return res
+
+
+def run(ctx):
+    from concurrent.futures import ProcessPoolExecutor
+    if not ctx.quick:
+        # thorough: rebuild this property's Rocq files from clean
+        for vo in list((vlib.COQ / "C03").glob("*.vo")) + [vlib.COQ / "Properties_C03.vo"]:
+            try:
+                vo.unlink()
+            except OSError:
+                pass
+    ctx.prove()
+    ok, outs, failed = ctx.coq_build(["C03/IterExamples.v"], timeout=600)
+    if not ok:
+        ctx.tie_broken("non-vacuity examples no longer check: %s" % " ".join(outs.get("C03/IterExamples.v", "").split())[-400:])
+    chk = None
+    if not ctx.quick:
+        # independent re-check of the compiled theorems with coqchk, concurrently with the correspondence
+        import subprocess
+        chk = subprocess.Popen(["timeout", "600", "coqchk", "-silent", "-o", "-Q", ".", "LibaV", "LibaV.Properties_C03"],
+                               cwd=str(vlib.COQ), stdout=subprocess.PIPE, stderr=subprocess.STDOUT, text=True)
+    cbin, mbin = build(ctx)
+    tasks = plan(ctx)
+    nw = max(2, min(vlib.NPROC // 2, 8))
+    with ProcessPoolExecutor(max_workers=nw) as ex:
+        results = list(ex.map(work, [(t, str(cbin), str(mbin)) for t in tasks]))
+    ctx.log("harness and model ran: %d tasks on %d workers" % (len(tasks), nw))
+
+    stats, sizes, shapes_seen, dist = {}, {}, set(), {}
+    n_cmp = n_lines = n_steps = n_diff = not_wf = 0
+    suspects = []
+    for r in results:
+        dist[r["tag"]] = dist.get(r["tag"], 0) + r["n_cases"]
+        n_cmp += r["n_cmp"]
+        n_lines += r["n_lines"]
+        n_steps += r["n_steps"]
+        n_diff += r["n_diff"]
+        not_wf += r["not_wf"]
+        for k, v in r["stats"].items():
+            stats[k] = stats.get(k, 0) + v
+        for k, v in r["sizes"].items():
+            sizes[k] = sizes.get(k, 0) + v
+        shapes_seen |= r["shapes"]
+        suspects += r["suspects"]
+        for b in r["broken"][:3]:
+            if len(ctx.broken_ties) < 12:
+                ctx.tie_broken(b)
+            else:
+                ctx.broken_ties.append(b)
+        for smp in r["samples"]:
+            ctx.sample(smp, limit=8)
+    if n_diff:
+        ctx.tie_broken("correspondence: %d of %d trees differ between C and model" % (n_diff, n_cmp))
     if not_wf:
         ctx.tie_broken("%d dumped heaps are not parent-linked trees with distinct ids according to the model's wf_heap "
-                       "(hypothesis Repr/NoDup of the theorems does not apply)" % not_wf)
+                       "(the hypotheses Repr/NoDup/hsub of the theorems do not apply to them)" % not_wf)
 
-    # search: every suspect case (disagreement, oracle failure, crash) is re-run alone, shrunk and reported
+    # search: every suspect case (disagreement, oracle failure, crash) is re-run alone; real failures of the
+    # property are shrunk and reported once per failure class
     reported = set()
-    done = 0
-    for case, why in suspects:
-        if done >= 6:
+    tried = 0
+    # failing inputs on the real containers (insert/remove histories) first, hand-linked shapes after; short first
+    for case, why in sorted(suspects, key=lambda cw: (cw[0][:1] not in "AR", len(cw[0]))):
+        if tried >= 40 or len(reported) >= 5:
             break
+        tried += 1
         w = c_fails(cbin, case)
         if w is None:
             continue
-        done += 1
-        report_case(ctx, cbin, case, w, reported)
+        cls = failure_class(w, case)
+        if cls in reported:
+            continue
+        reported.add(cls)
+        report_case(ctx, cbin, case, w, cls)
+
+    if chk is not None:
+        out = chk.communicate()[0]
+        if chk.returncode != 0 or "Axioms: <none>" not in out:
+            ctx.tie_broken("coqchk on LibaV.Properties_C03 failed or reports axioms: " + " ".join(out.split())[-400:])
+        else:
+            ctx.cov["trusted_base"].append("coqchk -o LibaV.Properties_C03: accepted, Axioms: <none>")
+            ctx.cov["checker_cmd"] += "; thorough: .vo of this property rebuilt from clean and re-checked with coqchk -o"
 
     missing = [b for b in ALL_BRANCHES if b not in stats]
-    ctx.count(evaluations=n_cmp, nontrivial=n_nontriv)
-    ctx.cov["rule"] = ("evaluations = trees on which C and extracted model were compared (all 8 foreach sequences, 6 single "
-                       "steps from every node, 4 end points, interrupted + resumed tear, remaining shape and its 3 iterations); "
-                       "distinct_nontrivial = distinct id-free tree shapes with >= 2 nodes among them")
+    ctx.count(evaluations=n_cmp, nontrivial=len(shapes_seen))
+    ctx.cov["rule"] = ("evaluations = trees on which the C (AVL and RB built by insert/remove histories; hand-linked trees "
+                       "of both node types) and the extracted model were compared on all 8 foreach sequences, 6 single "
+                       "steps from every node, 4 end points, interrupted + resumed tear with free(), remaining shape and "
+                       "its 3 iterations; distinct_nontrivial = distinct id-free tree shapes with >= 2 nodes among them")
     ctx.cov["lines_compared"] = n_lines
     ctx.cov["node_steps_compared"] = n_steps
     ctx.cov["case_distribution"] = dist
@@ -764,10 +846,14 @@ def run(ctx):
     ctx.cov["branch_hits"] = dict(sorted(stats.items()))
     ctx.cov["branches_not_reached"] = missing
     ctx.cov["disagreements"] = n_diff
+    ctx.cov["trusted_base"] += [
+        "extraction (ExtrOcamlBasic only) and harness/C03/mdrv.ml (int<->positive/nat, parsing, printing)",
+        "harness/C03/drv.c + body.h (builds the trees, dumps left/right/parent, runs the macros); ASan/UBSan as observers of reads after free",
+        "C semantics / compiler; the pointer code is tied to the model by differential comparison, not proved"]
     if missing:
         ctx.notes.append("model branches not reached in this run: " + ", ".join(missing))
     ctx.log("compared %d trees (%d lines, %d distinct shapes), %d disagreements, branches not reached: %s"
-            % (n_cmp, n_lines, n_nontriv, n_diff, missing or "none"))
+            % (n_cmp, n_lines, len(shapes_seen), n_diff, missing or "none"))
 
 
 def replay(ctx, path):
